@@ -24,6 +24,7 @@ type c15Scn struct {
 	NItems   int    `json:"nitems"`
 	Cut      string `json:"cut,omitempty"`
 	ReadSize int    `json:"readsize,omitempty"`
+	Retry    *bool  `json:"retry,omitempty"` // replay: whether an opening that broke off in the middle of a request preceded this one
 	idx      int
 }
 
@@ -59,6 +60,25 @@ func c15Segments(b []byte, cut string) [][]byte {
 		}
 
 		return append(s, b[start:])
+	case "paused4":
+		// four pieces (fewer when the opening is shorter)
+		var s [][]byte
+
+		q := (len(b) + 3) / 4
+		if q == 0 {
+			return [][]byte{b}
+		}
+
+		for i := 0; i < len(b); i += q {
+			e := i + q
+			if e > len(b) {
+				e = len(b)
+			}
+
+			s = append(s, b[i:e])
+		}
+
+		return s
 	case "halves", "paused":
 		h := len(b) / 2
 		if h == 0 {
@@ -89,7 +109,34 @@ func c15Run(s *c15Scn, cut string) verdict {
 	gotReplies := make(chan []byte, 1)
 	clientDone := make(chan struct{})
 
+	// every third opening is a second attempt on the same transport object: the first attempt reached a server that went away
+	// in the middle of a request (IAC DO, then the connection is closed)
+	retry := s.idx%3 == 1
+	if s.Retry != nil {
+		retry = *s.Retry
+	}
+
+	// "paused4": the opening arrives in four pieces 120 ms apart - every gap well inside the window (half of the 600 ms socket
+	// timeout after the latest byte), the whole longer than one window
+	sockTimeout := 240 * time.Millisecond
+	if cut == "paused4" {
+		sockTimeout = 600 * time.Millisecond
+	}
+
 	go func() {
+		if retry {
+			c0, aerr := ln.Accept()
+			if aerr != nil {
+				gotReplies <- nil
+
+				return
+			}
+
+			_, _ = c0.Write([]byte{255, 253})
+			time.Sleep(5 * time.Millisecond)
+			_ = c0.Close()
+		}
+
 		c, aerr := ln.Accept()
 		if aerr != nil {
 			gotReplies <- nil
@@ -102,7 +149,9 @@ func c15Run(s *c15Scn, cut string) verdict {
 		for _, seg := range c15Segments(opening, cut) {
 			_, _ = c.Write(seg)
 
-			if cut == "paused" {
+			if cut == "paused4" {
+				time.Sleep(120 * time.Millisecond)
+			} else if cut == "paused" {
 				// a pause well inside the documented window (half of the 240 ms socket timeout after the first byte)
 				time.Sleep(65 * time.Millisecond)
 			} else {
@@ -115,7 +164,7 @@ func c15Run(s *c15Scn, cut string) verdict {
 		buf := make([]byte, 256)
 
 		for {
-			_ = c.SetReadDeadline(time.Now().Add(450 * time.Millisecond))
+			_ = c.SetReadDeadline(time.Now().Add(450*time.Millisecond + sockTimeout - 240*time.Millisecond))
 
 			n, rerr := c.Read(buf)
 			rb = append(rb, buf[:n]...)
@@ -150,7 +199,7 @@ func c15Run(s *c15Scn, cut string) verdict {
 
 	v.Variant = fmt.Sprintf("%s/%d", cut, readSize)
 
-	t, err := transport.NewTransport(li, "127.0.0.1", transport.TelnetTransport, options.WithPort(port), options.WithTimeoutSocket(240*time.Millisecond),
+	t, err := transport.NewTransport(li, "127.0.0.1", transport.TelnetTransport, options.WithPort(port), options.WithTimeoutSocket(sockTimeout),
 		options.WithTransportReadSize(readSize))
 	if err != nil {
 		fail(&v, "C15:harness:new", "%v", err)
@@ -159,6 +208,20 @@ func c15Run(s *c15Scn, cut string) verdict {
 	}
 
 	defer close(clientDone)
+
+	v.Variant = fmt.Sprintf("%s/%d/%v", cut, readSize, retry)
+
+	if retry {
+		fin0, pan0 := withWatchdog(5*time.Second, func() {
+			_ = t.Open() // whatever it reports
+			_ = t.Close(true)
+		})
+		if !fin0 || pan0 != nil {
+			fail(&v, "C15:open-that-breaks-off", "the opening that breaks off after IAC DO: returned=%v panic=%v", fin0, pan0)
+
+			return v
+		}
+	}
 
 	var oerr error
 
@@ -240,7 +303,7 @@ func c15(_ []string) error {
 		return err
 	}
 
-	cuts := []string{"whole", "bytes", "mid-iac", "halves", "paused"}
+	cuts := []string{"whole", "bytes", "mid-iac", "halves", "paused", "paused4", "whole", "bytes", "mid-iac", "halves", "paused"}
 
 	type job struct {
 		s   *c15Scn
@@ -256,12 +319,12 @@ func c15(_ []string) error {
 			continue
 		}
 
-		jobs = append(jobs, job{s, cuts[s.idx%5]})
+		jobs = append(jobs, job{s, cuts[s.idx%len(cuts)]})
 
 		if tier() == "thorough" {
-			jobs = append(jobs, job{s, cuts[(s.idx+1)%5]}, job{s, cuts[(s.idx+2)%5]})
+			jobs = append(jobs, job{s, cuts[(s.idx+1)%len(cuts)]}, job{s, cuts[(s.idx+2)%len(cuts)]})
 		} else if len(s.Bytes) > 2 {
-			jobs = append(jobs, job{s, cuts[(s.idx+1)%5]})
+			jobs = append(jobs, job{s, cuts[(s.idx+1)%len(cuts)]})
 		}
 	}
 
